@@ -32,10 +32,13 @@ def gen_lineage(r):
     def nm(i):
         return (U.PREFIX + 'pk.l%d' % i) if dotted else (U.PREFIX + 'l%d' % i)
     ig0 = r.choice(['none', 'none', 'anon', 'named', 'named'])
-    matrix = r.random() < 0.25
+    matrix = r.random() < 0.30
+    nullable_x = matrix and r.random() < 0.4
     if matrix:
         # one rule referred to from every kind of expression; the derived grammars override it
-        s0, g0 = spec.kind_matrix_root(r, ignore=None if ig0 == 'none' else ig0)
+        # (nullable_x: the base definition cannot fail, the overrides can -- static facts about the base
+        # definition must not be baked into the inherited rules that refer to it)
+        s0, g0 = spec.kind_matrix_root(r, ignore=None if ig0 == 'none' else ig0, nullable_x=nullable_x)
     else:
         s0, g0 = spec.gen_root(r, True, hook_p=0.0, ignore=ig0, class_start=False, max_rep_lo=1,
                                start_spelling=r.choice(['start'] * 8 + ['Start', 'START']))
@@ -50,8 +53,12 @@ def gen_lineage(r):
             sup = {n for it in prev.spec['items'] for k, n in spec.refs_in_item(it) if k == 'super'}
             own = {it['name'] for it in prev.spec['items'] if it['k'] in ('rule', 'class')}
             force = tuple(force) + tuple(sorted(sup - own))
+        fb = None
+        if nullable_x and 'X' in force:
+            # first override: a definition that can fail; later ones: either kind
+            fb = {'X': r.choice(spec.FAILING_X_OVERRIDES if (i == 1 or r.random() < 0.5) else spec.NULLABLE_X_BASES)}
         s, g = spec.gen_child(r, prev.gen, hook_p=0.0, ignore=ig, force=force, override_ignore_p=0.25,
-                              respell_start_p=0.3)
+                              respell_start_p=0.3, force_body=fb)
         m = C.ModInfo(i, nm(i), prev.id, s, g, parent=prev)
         infos.append(m)
         prev = m
@@ -67,8 +74,9 @@ def gen_lineage(r):
             if r2.random() < (0.8 if k == 0 else 0.5):
                 par = infos[k]
                 force = ('X',) if matrix and r2.random() < 0.5 else ()
+                fb = {'X': r2.choice(spec.FAILING_X_OVERRIDES)} if (nullable_x and force) else None
                 s, g = spec.gen_child(r2, par.gen, hook_p=0.0, ignore=r2.choice([None, None, 'anon', 'named']), force=force,
-                                      override_ignore_p=0.25, respell_start_p=0.2)
+                                      override_ignore_p=0.25, respell_start_p=0.2, force_body=fb)
                 sibs.append(C.ModInfo(5 + k, nm(5 + k), par.id, s, g, parent=par))
     return infos, alt, dotted, sibs
 
